@@ -460,6 +460,13 @@ func Replay(spec Spec, hist []qmodel.Op, op qmodel.Op) string {
 	if why == "" && spec.Extra != nil {
 		why = spec.Extra(pre, m, op, obs)
 	}
+	if why == "" {
+		// the same cross-check Run makes after every transition (without it a violation of this kind was filed as
+		// "failed once but not on re-run", i.e. as an infrastructure error)
+		if cq, cl, rq, rl, ok := sys.Counters(); ok && (cq != rq || cl != rl) {
+			why = fmt.Sprintf("queue_counters (queued=%d leased=%d) differ from the real counts (%d, %d)", cq, cl, rq, rl)
+		}
+	}
 	return why
 }
 
